@@ -341,9 +341,11 @@ def oracle(case, res, hist, fired):
             V.append(v("makegateway-raised-other", f"{key0};{res.setup_error[1]}", res.setup_error[2]))
         gen_v = [x for x in L.generic_rules(res, hist, allow_exc=allow, key=key0) if x["rule"] not in ("setup-failed",)]
         return V + gen_v
-    V += [x for x in L.generic_rules(res, hist, allow_exc=allow, key=key0)]
+    gen_v = L.generic_rules(res, hist, allow_exc=allow, key=key0)
     if not fired:
-        return V
+        # the connection was never lost (cut offset beyond what this schedule wrote): survivors may wait forever
+        return V + [x for x in gen_v if x["rule"] != "blocked-forever"]
+    V += gen_v
     ids = hist.chan_ids()
     # ground truth: complete frames among the bytes the kernel accepted from the dying side
     if case["mode"] == "cut" or case["mode"] == "proxy":
